@@ -477,7 +477,7 @@ func expandCursor(c *Contract, spec string) error {
 	c.Lets = append(c.Lets, Let{Name: "W", Cl: Clause{Text: fmt.Sprintf("old(%s(%s))", w, x), Line: c.Line}})
 	add(&c.Ensures, fmt.Sprintf("old(%s) >= len(W) ==> %s == 0 && is_eof(%s) && %s == old(%s)", off, n, e, off, off))
 	add(&c.Ensures, fmt.Sprintf("old(%s) < len(W) ==> %s == nil && %s == min(len(%s), len(W)-old(%s)) && %s == old(%s)+%s", off, e, n, p, off, off, off, n))
-	add(&c.Ensures, fmt.Sprintf("forall(i, 0, %s, %s[i] == W[old(%s)+i])", n, p, off))
+	add(&c.Ensures, fmt.Sprintf("forallcut(i, 0, %s, W, old(%s)+i, %s[i] == W[old(%s)+i])", n, off, p, off))
 	add(&c.Ensures, fmt.Sprintf("%s(%s) == W", w, x))
 	c.NoPanic = true
 	return nil
